@@ -327,6 +327,28 @@ example : writeRounds ⟨1, 1, 4, false, false, false, false, false, false, 7000
 example : (runSend ⟨64, 48, 4, false, false, false, false, false, false, 20000, false⟩ {} { phase := .normal }
     [6, 0, 0, 0, 0, 0, 0, 5]).2.rw = 1 := by decide      -- cut text of 5 bytes, none sent: one wait
 
+/-- `rfbReadExactTimeout`'s error arms: when `select` reports an error (EBADF, EINTR, …) or the
+peer is gone, the read fails at once — no wait is spent; the handler closes the client as for a
+timeout (`run` treats the round as starved) -/
+theorem select_error_costs_no_wait (cfg : Cfg) (m : Mode) (hm : (m.eof || m.selErr) = true) (c : Conn)
+    (inp : List UInt8) : (runSend cfg m c inp).2.rw = 0 := by
+  have := run_no_wait cfg m hm (inp.length + 1) c inp {}
+  simpa [runSend] using this
+
+/-- slow-trickle peer at stream level (the formula the driver predicts and the harness measures):
+a peer that delivers one byte every `d < wait` ms keeps the server busy for `d` per byte that is not
+the first of its round, plus one full wait if it finally stops: in total less than one wait per
+byte.  (`n` rounds, `rw ≤ 1` final waits, `len` bytes.) -/
+theorem trickle_stream_bound (d wait len n rw : Nat) (hd : d ≤ wait) (hn : n ≤ len) (hrw : rw ≤ n) :
+    d * (len - n) + rw * wait ≤ len * wait := by
+  have h1 : d * (len - n) ≤ wait * (len - n) := Nat.mul_le_mul_right _ hd
+  have h2 : rw * wait ≤ n * wait := Nat.mul_le_mul_right _ hrw
+  have h3 : wait * (len - n) + n * wait = len * wait := by
+    rw [Nat.mul_comm wait (len - n), ← Nat.add_mul]
+    congr 1
+    omega
+  omega
+
 /-! ## (6) termination of the message loop -/
 
 /-- rounds ≤ bytes + 1 (the `+ 1` is the end-of-file round) -/
